@@ -64,6 +64,18 @@ OTHER_CHECKS = [
      "MC_Dispatch.tla defines the dispatch function (most specific enabled listener, DATA_ON_READERS precedence) and TLC enumerates all 72 (status kind x three masks x DATA_ON_READERS) configurations; each configuration is raised by a real event (match, data, deadline miss, rejection, incompatible QoS) in the simulation with recording listeners at reader/writer, subscriber/publisher and participant level: the callback must arrive at exactly the specified level, nowhere else, and once per status change.",
      "5.6, 6 C33", "Trusted: TLC; recording listeners; a listener object is installed wherever a mask is non-empty; liveliness / sample-lost / inconsistent-topic statuses are not raised.",
      "TLA+ dispatch function enumerated exhaustively by TLC; each configuration replayed end-to-end in the deterministic simulation"),
+    ("C35", "model_checking",
+     "Entities.tla models the entity tree with one action per public create/delete/use call; TLC enumerates all histories of <= 5 operations over 3 publishers, 2 subscribers, a topic, a writer and a reader, and every transition is replayed through the async API on a participant whose 8-bit publisher/subscriber counters were first advanced to 254, so that the counter wraps inside every replayed history: after every operation all simultaneously existing entities must have distinct instance handles, the call must return (a panic or stall of the worker is a violation) and give the specified result.",
+     "5.8, 6 C35", GRAPH_NOTE + " The 16-bit topic/reader/writer counters are not warmed to their wrap (65 536 creations per replay is too slow); RTPS GUIDs are not compared separately (the handle of these entities is their GUID).",
+     "explicit TLA+ spec + TLC; every transition replayed through the public API in the deterministic simulation after counter warm-up"),
+    ("C36", "model_checking",
+     "Entities.tla gives the DDS return code of every create / delete / get_qos / delete_contained_entities / delete_participant call as a function of the entity tree (children present, topic in use, already deleted, wrong parent); TLC enumerates all histories of <= 6 operations (2 publishers, 1 subscriber, 2 topics with 2 names, 2 writers, 1 reader; 1 559 states, 7 247 transitions) and every transition is replayed through the async API in the simulation and compared.",
+     "5.8, 6 C36", GRAPH_NOTE + " Content-filtered topics and set_listener on deleted entities are not in the model yet.",
+     "explicit TLA+ spec + TLC; every transition replayed through the public API in the deterministic simulation"),
+    ("C38", "model_checking",
+     "FragSize.tla: set_fragment_size accepts exactly 8..=65000 and keeps the previous value on error; TLC enumerates all sequences of 3 calls over the value classes {0,7,8,9,1344,64999,65000,65001,usize::MAX} and every transition is replayed on the real RtpsUdpTransportParticipantFactory.",
+     "6 C38", "Trusted: TLC; value classes instead of all usize values.",
+     "explicit TLA+ spec + TLC; every transition replayed on the real object"),
     ("C34", "model_checking",
      "Channels.tla models the oneshot, mpsc and notification channels with one action per critical section of the code (send, clone, drop of a sender, poll with a waker id); TLC checks ExactlyOnceFifo and NoLostWakeup for all interleavings (<= 2 senders, 3 sends, 4 polls, 2 wakers) and every transition is replayed on the real channels with counting wakers: poll results, received values and wake-up counts are compared after every step.",
      "5.7, 6 C34", GRAPH_NOTE + " Thread-level linearizability is argued from the code structure (each operation is a single critical_section::with), not tested with real threads.",
